@@ -553,6 +553,9 @@ func (g *gen) addAddress(i int) {
 		}
 	}
 	// near-miss names next to it
+	if ext := c.Conf.Filenames.PrimaryExt; ext == "e" && g.regexIx < 0 && !g.hasPath(c.Conf.Path+"/"+h) {
+		g.add(c.Conf.Path+"/"+h, kFile, keyContent) // contains the one-letter extension, does not end with it (mostly)
+	}
 	for n := r.Intn(3); n > 0; n-- {
 		nmiss := g.nearMiss(name, h)
 		p := c.Conf.Path + "/" + nmiss
@@ -870,6 +873,22 @@ func corpus() []*wcase {
 		{Op: "write", Path: "k/" + hx(1) + ".key.json", Kind: kFile, Content: right},
 		{Op: "sign", Raw: q(1), Want: keys[1].addr}, {Op: "getwf", Addr: keys[1].addr, Want: keys[1].addr},
 	})
+	// an extension made of a hexadecimal digit: a name that merely contains it does not match
+	e := ""
+	for i := 0; i < 39; i++ {
+		if hx(1)[i] != hx(1)[39] && hx(1)[i] != '0' {
+			e = string(hx(1)[i])
+			break
+		}
+	}
+	hexExt := fswallet.Config{Path: "k", Filenames: fswallet.FilenamesConfig{PrimaryExt: e, PasswordExt: ".pwd"}}
+	mk("corpus hex-extension", hexExt, []fsEntry{
+		{Path: "k/" + hx(0) + e, Kind: kFile, Content: right},
+		{Path: "k/" + hx(0) + ".pwd", Kind: kFile, Content: []byte("a")},
+		{Path: "k/" + hx(1), Kind: kFile, Content: v3Write(r, keys[1].priv, []byte("a"), keys[1].addr)},
+		{Path: "k/" + e + hx(2), Kind: kFile, Content: v3Write(r, keys[2].priv, []byte("a"), keys[2].addr)},
+		{Path: "k/" + hx(1) + ".pwd", Kind: kFile, Content: []byte("a")},
+	}, []*hop{{Op: "sign", Raw: q(0), Want: keys[0].addr}, {Op: "sign", Raw: q(1), Want: keys[1].addr}})
 	// the same address under three spellings: one account, backed by the last file listed
 	mk("corpus spellings", plain, []fsEntry{
 		{Path: "k/" + hx(0) + ".key.json", Kind: kFile, Content: right},
